@@ -7,6 +7,12 @@ package harness
 // a committed change of the fee configuration between mempool admission and execution
 // (floor price raised / lowered / other denom, message fees added / raised / lowered / removed /
 // other denom or recipient, conversion rate changed) followed by a mempool recheck.
+// The configuration is what the chain was SET UP with (written straight into the store; floor
+// prices below / at / just above / twice the compiled-in default) changed — for 40% of the cases
+// before the tx arrives, for half of the in-between changes — by governance proposals run through
+// the real x/msgfees message handlers (txfee_gov_test.go): usd rate, conversion denom, fees added /
+// updated / removed, one or two messages per proposal, a minority refused by the keeper.  The
+// declared fee is chosen against the configuration the proposals leave behind.
 
 import (
 	"fmt"
@@ -62,7 +68,7 @@ func txfeeGen(rng *RNG, out *Out) *txfeeOp {
 	if rng.Chance(10) {
 		floorDenom = "hotdog"
 	}
-	op.floor = sdk.Coin{Denom: floorDenom, Amount: sdkmath.NewInt(Pick(rng, []int64{0, 1, 1, 2, 19, 1905}))}
+	op.floor = sdk.Coin{Denom: floorDenom, Amount: sdkmath.NewInt(Pick(rng, txfeeFloors))}
 	op.convD = "nhash"
 	if rng.Chance(15) {
 		op.convD = "hotdog"
@@ -95,6 +101,22 @@ func txfeeGen(rng *RNG, out *Out) *txfeeOp {
 	}
 	op.auth = !rng.Chance(12)
 
+	// ---- governance before the tx arrives: the configuration in force is no longer the one written ----
+	effD, effR, effS := op.convD, op.convR, op.sched
+	op.gv = "r"
+	if rng.Chance(12) {
+		op.gv = "v"
+	}
+	if rng.Chance(40) {
+		op.gov = txfeeGenGov(rng, out, effD, effR, effS, feeDenoms, bigAmt, rcps, 1+rng.Intn(2))
+		effD, effR, effS = txfeeGovApplyAll(effD, effR, effS, op.gov)
+		out.Count("gov")
+		out.Count("gov:via_" + op.gv)
+		if !op.floor.Equal(msgfeesDefaultFloor) {
+			out.Count("gov:floor_not_default")
+		}
+	}
+
 	// ---- body ----
 	need := txfeeNeed{}    // every additional fee incurred if all messages run
 	needTop := txfeeNeed{} // what the mempool check sees (top-level messages only)
@@ -103,9 +125,9 @@ func txfeeGen(rng *RNG, out *Out) *txfeeOp {
 	nPay := 0
 	shape := map[string]bool{}
 	schedOf := func(ty string) *txfeeSched {
-		for i := range op.sched {
-			if op.sched[i].typ == ty {
-				return &op.sched[i]
+		for i := range effS {
+			if effS[i].typ == ty {
+				return &effS[i]
 			}
 		}
 		return nil
@@ -145,19 +167,19 @@ func txfeeGen(rng *RNG, out *Out) *txfeeOp {
 			d := "usd"
 			switch x := rng.Intn(10); {
 			case x < 3:
-				d = op.convD
+				d = effD
 			case x == 3:
 				d = "jackthecat"
 			}
 			amt := int64(1 + rng.Intn(50))
 			conv := big.NewInt(amt)
 			if d == "usd" {
-				conv.Mul(conv, new(big.Int).SetUint64(op.convR))
+				conv.Mul(conv, new(big.Int).SetUint64(effR))
 			}
 			if d != "jackthecat" {
-				need.add(op.convD, conv)
+				need.add(effD, conv)
 				if top {
-					needTop.add(op.convD, conv)
+					needTop.add(effD, conv)
 				}
 			}
 			return []string{fmt.Sprintf("assess:%d%s:%s:%s", amt, d, Pick(rng, []string{"-", "R1", "R2", "Q"}), Pick(rng, []string{"-", "-", "0", "1", "5000", "9999", "10000"}))}
@@ -282,8 +304,8 @@ func txfeeGen(rng *RNG, out *Out) *txfeeOp {
 	// ---- a committed change of the fee configuration while the tx waits in the mempool ----
 	if rng.Chance(35) {
 		op.re = true
-		op.floor2, op.convD2, op.convR2 = op.floor, op.convD, op.convR
-		op.sched2 = append([]txfeeSched(nil), op.sched...)
+		op.floor2, op.convD2, op.convR2 = op.floor, effD, effR
+		op.sched2 = append([]txfeeSched(nil), effS...)
 		nch := 1 + rng.Intn(2)
 		if rng.Chance(10) {
 			nch = 0 // recheck against an unchanged configuration
@@ -371,8 +393,49 @@ func txfeeGen(rng *RNG, out *Out) *txfeeOp {
 				out.Count("chg:conv")
 			}
 		}
+		// how the change comes about: a straight rewrite (always for the floor price, which no
+		// message can change), or governance proposals for everything a message exists for
+		tgtD, tgtR, tgtS := op.convD2, op.convR2, op.sched2
+		op.direct2 = true
+		if rng.Chance(55) && (tgtR >= 1 || tgtR == effR) {
+			if rng.Chance(10) { // the conversion denom is voted on as well
+				if tgtD == "nhash" {
+					tgtD = "hotdog"
+				} else {
+					tgtD = "nhash"
+				}
+				out.Count("chg:conv_denom")
+			}
+			msgs := txfeeGovDiff(rng, effD, effR, effS, tgtD, tgtR, tgtS)
+			switch {
+			case len(msgs) == 0:
+			case len(msgs) == 1 || rng.Chance(50):
+				op.gov2 = [][]txfeeGovMsg{msgs}
+			default:
+				for _, m := range msgs {
+					op.gov2 = append(op.gov2, []txfeeGovMsg{m})
+				}
+			}
+			if rng.Chance(12) { // plus a proposal the keeper refuses (possibly after a message that went through)
+				bad := txfeeGenGov(rng, out, tgtD, tgtR, tgtS, feeDenoms, bigAmt, rcps, 1)
+				at := rng.Intn(len(op.gov2) + 1)
+				op.gov2 = append(op.gov2[:at], append(bad, op.gov2[at:]...)...)
+			}
+			// the rewrite part: nothing, or the floor price alone
+			op.direct2 = !op.floor2.Equal(op.floor)
+			op.convD2, op.convR2, op.sched2 = effD, effR, append([]txfeeSched(nil), effS...)
+			tgtD, tgtR, tgtS = txfeeGovApplyAll(effD, effR, effS, op.gov2)
+			if len(op.gov2) > 0 {
+				out.Count("re:gov")
+				if op.direct2 {
+					out.Count("re:gov+floor_rewrite")
+				}
+			}
+		} else {
+			out.Count("re:rewrite")
+		}
 		// what the new configuration requires of this body
-		need2, needTop2 := txfeeNeedsOf(body, op.sched2, payfee, op.convD2, op.convR2)
+		need2, needTop2 := txfeeNeedsOf(body, tgtS, payfee, tgtD, tgtR)
 		base2 := new(big.Int).Mul(op.floor2.Amount.BigInt(), new(big.Int).SetUint64(op.gas))
 		req2, reqTop2 := need2.clone(), needTop2.clone()
 		req2.add(op.floor2.Denom, base2)
@@ -581,3 +644,130 @@ func txfeeNeedsOf(body []string, sched []txfeeSched, payfee *sdk.Coin, convD str
 	}
 	return need, needTop
 }
+
+var msgfeesDefaultFloor = sdk.NewInt64Coin("nhash", 1905)
+
+var txfeeGovTypes = []string{"send", "exec", "assess", "pay"}
+
+// txfeeGovEntry renders a schedule entry as the arguments of an add / update message.
+func txfeeGovEntry(rng *RNG, kind string, sc txfeeSched) txfeeGovMsg {
+	m := txfeeGovMsg{kind: kind, typ: sc.typ, fee: sc.fee, rcp: sc.rcp, bips: "-"}
+	if sc.rcp != "-" && !(sc.bips == 5000 && rng.Chance(50)) {
+		m.bips = fmt.Sprintf("%d", sc.bips)
+	}
+	return m
+}
+
+// txfeeGenGov: n proposals of one or two messages each against the running configuration: usd
+// rate, conversion denom, fees added / updated / removed; a minority is refused by the keeper
+// (add of an existing entry, update / removal of a missing one), also as the SECOND message of a
+// proposal whose first one went through (nothing of it may stay).
+func txfeeGenGov(rng *RNG, out *Out, convD string, convR uint64, sched []txfeeSched, feeDenoms []string,
+	bigAmt func() sdkmath.Int, rcps []string, n int) [][]txfeeGovMsg {
+	bipsSet := []uint32{0, 1, 2500, 3333, 5000, 5000, 9999, 10000}
+	var ps [][]txfeeGovMsg
+	for i := 0; i < n; i++ {
+		d, r, s := convD, convR, append([]txfeeSched(nil), sched...)
+		var p []txfeeGovMsg
+		nm := 1
+		if rng.Chance(30) {
+			nm = 2
+		}
+		for j := 0; j < nm; j++ {
+			var have, free []string
+			for _, ty := range txfeeGovTypes {
+				found := false
+				for _, sc := range s {
+					found = found || sc.typ == ty
+				}
+				if found {
+					have = append(have, ty)
+				} else {
+					free = append(free, ty)
+				}
+			}
+			ent := func(ty string) txfeeSched {
+				return txfeeSched{typ: ty, fee: sdk.Coin{Denom: Pick(rng, feeDenoms), Amount: bigAmt()}, rcp: Pick(rng, rcps), bips: Pick(rng, bipsSet)}
+			}
+			var m txfeeGovMsg
+			switch c := rng.Intn(100); {
+			case c < 32:
+				m = txfeeGovMsg{kind: "rate", rate: Pick(rng, []uint64{1, 25, 26, 50, 1000, 40000, 25000000})}
+				out.Count("govmsg:rate")
+			case c < 42:
+				m = txfeeGovMsg{kind: "denom", denom: "hotdog"}
+				if d == "hotdog" {
+					m.denom = "nhash"
+				}
+				out.Count("govmsg:denom")
+			case c < 60 && len(free) > 0:
+				m = txfeeGovEntry(rng, "add", ent(Pick(rng, free)))
+				out.Count("govmsg:add")
+			case c < 80 && len(have) > 0:
+				m = txfeeGovEntry(rng, "upd", ent(Pick(rng, have)))
+				out.Count("govmsg:upd")
+			case c < 90 && len(have) > 0:
+				m = txfeeGovMsg{kind: "rm", typ: Pick(rng, have)}
+				out.Count("govmsg:rm")
+			case len(have) > 0 && rng.Chance(50):
+				m = txfeeGovEntry(rng, "add", ent(Pick(rng, have)))
+				out.Count("govmsg:refused")
+			case len(free) > 0 && rng.Chance(50):
+				m = txfeeGovEntry(rng, "upd", ent(Pick(rng, free)))
+				out.Count("govmsg:refused")
+			case len(free) > 0:
+				m = txfeeGovMsg{kind: "rm", typ: Pick(rng, free)}
+				out.Count("govmsg:refused")
+			default:
+				m = txfeeGovMsg{kind: "rate", rate: Pick(rng, []uint64{1, 25, 1000})}
+				out.Count("govmsg:rate")
+			}
+			p = append(p, m)
+			txfeeGovApply(&d, &r, &s, m)
+		}
+		ps = append(ps, p)
+		convD, convR, sched = txfeeGovApplyAll(convD, convR, sched, [][]txfeeGovMsg{p})
+	}
+	return ps
+}
+
+// txfeeGovDiff: the governance messages that turn one configuration into another.
+func txfeeGovDiff(rng *RNG, d0 string, r0 uint64, s0 []txfeeSched, d1 string, r1 uint64, s1 []txfeeSched) []txfeeGovMsg {
+	var ms []txfeeGovMsg
+	if r1 != r0 {
+		ms = append(ms, txfeeGovMsg{kind: "rate", rate: r1})
+	}
+	if d1 != d0 {
+		ms = append(ms, txfeeGovMsg{kind: "denom", denom: d1})
+	}
+	find := func(s []txfeeSched, ty string) *txfeeSched {
+		for i := range s {
+			if s[i].typ == ty {
+				return &s[i]
+			}
+		}
+		return nil
+	}
+	for _, ty := range txfeeGovTypes {
+		a, b := find(s0, ty), find(s1, ty)
+		switch {
+		case a == nil && b != nil:
+			ms = append(ms, txfeeGovEntry(rng, "add", *b))
+		case a != nil && b == nil:
+			ms = append(ms, txfeeGovMsg{kind: "rm", typ: ty})
+		case a != nil && b != nil && (!a.fee.Equal(b.fee) || a.rcp != b.rcp || a.bips != b.bips):
+			ms = append(ms, txfeeGovEntry(rng, "upd", *b))
+		}
+	}
+	// any order: the messages are independent of each other
+	for i := len(ms) - 1; i > 0; i-- {
+		j := rng.Intn(i + 1)
+		ms[i], ms[j] = ms[j], ms[i]
+	}
+	return ms
+}
+
+// floor gas prices: none, small, and around the compiled-in default (pioconfig: 1905nhash) —
+// below it, equal, just above, twice: whatever falls back to the default is then seen in both
+// directions.
+var txfeeFloors = []int64{0, 1, 1, 2, 19, 1904, 1905, 1906, 3810}
